@@ -190,6 +190,35 @@ where
     | _, [] => rfl
     | sel, (g, o) :: rest => by simp [convertInline, dictGet, convertInline_nil sel rest]
 
+/-- A fault never *creates* values downstream: a node with an untyped or valueless input (e.g.
+    because an upstream fault made spox drop a value) attaches nothing, whatever its own backend
+    call would return - so downstream Vars only ever lose values (hence type information inferred
+    from them), they never get different ones. This is the part of the downstream half of
+    `types_unaffected` that lives in spox; that ONNX shape inference is monotone in the set of
+    known constants is an assumption about the third-party engine (checked by the oracle). -/
+theorem valueless_input_propagates_nothing (sel : BackendSel) (k : Kind) (ctx : NodeCtx) (b : Backend)
+    (hbad : ∃ i ∈ ctx.inputs, i.type = none ∨ i.hasValue = false)
+    (hfresh : ∀ o ∈ ctx.outputs, o.value = none) :
+    construct Variant.fixed sel k ctx b = .ok (ctx.outputs.map fun o => (o, false)) := by
+  have hany : ctx.inputs.any (fun i => i.type.isNone || !i.hasValue) = true := by
+    obtain ⟨i, hi, h⟩ := hbad
+    simp only [List.any_eq_true, Bool.or_eq_true, Option.isNone_iff_eq_none, Bool.not_eq_eq_eq_not,
+      Bool.not_true]
+    exact ⟨i, hi, h⟩
+  have hp : propagate Variant.fixed sel ctx b k = .ok [] := by
+    cases k with
+    | standard =>
+      cases sel with
+      | none => rfl
+      | reference => simp [propagate, propagateStd, propagateOnnx, hany]
+      | onnxruntime => simp [propagate, propagateStd, propagateOnnx, hany]
+    | inline g => simp [propagate, propagateInline, hany]
+  simp only [construct, hp, merge]
+  congr 1
+  apply List.map_congr_left
+  intro o ho
+  simp [mergeOne, dictGet, hfresh o ho]
+
 /-! ### non-vacuity: the construction does attach good values and does drop bad ones -/
 
 def ctx1 (t : Ty) : NodeCtx :=
@@ -235,18 +264,24 @@ theorem construct_total_counterexample :
 def seqBad : RefVal := .list [.arr .f64 [3] 3, .arr .str [1] 5]
 
 /-- Pinned: `[float64[3], str[1]]` is attached to a `Sequence(Tensor(int64, (2,)))` Var and
-    `float64[1]` to an `Optional(Tensor(int64, (2,)))` Var - values that do not conform. -/
+    `float64[1]` to an `Optional(Tensor(int64, (2,)))` Var, and an object array holding an
+    arbitrary object to a `Tensor(str)` Var - values that do not conform. -/
 theorem no_bad_value_counterexample :
     (∃ pv, (construct Variant.pinned .reference .standard (ctx1 (.seq tI64x2))
         (.ret ["output"] [seqBad])).toOption.map (·.map fun ow => ow.1.value) = some [some pv] ∧
       ¬ conforms pv.type pv.value) ∧
     (∃ pv, (construct Variant.pinned .reference .standard (ctx1 (.opt tI64x2))
         (.ret ["output"] [.arr .f64 [1] 3])).toOption.map (·.map fun ow => ow.1.value) = some [some pv] ∧
+      ¬ conforms pv.type pv.value) ∧
+    (∃ pv, (construct Variant.pinned .reference .standard (ctx1 (.tensor .str none))
+        (.ret ["output"] [.opaque 3])).toOption.map (·.map fun ow => ow.1.value) = some [some pv] ∧
       ¬ conforms pv.type pv.value) := by
-  refine ⟨⟨_, rfl, ?_⟩, ⟨_, rfl, ?_⟩⟩
+  refine ⟨⟨_, rfl, ?_⟩, ⟨_, rfl, ?_⟩, ⟨_, rfl, ?_⟩⟩
   · simp [PropValue.type, PropValue.value, PropValue.new, conforms, tI64x2, dtConf, DT.norm,
       Payload.normalise, DT.isNumber]
   · simp [PropValue.type, PropValue.value, PropValue.new, conforms, tI64x2, dtConf, DT.norm,
+      Payload.normalise, DT.isNumber]
+  · simp [PropValue.type, PropValue.value, PropValue.new, conforms, dtConf, DT.norm,
       Payload.normalise, DT.isNumber]
 
 /-- Pinned: with propagation switched off, inlining a model fed with a constant raises. -/
